@@ -23,7 +23,7 @@ from .fam_fs import extract
 
 NAME = "det"
 
-DIMS = ["entropy", "rand", "set_order", "clock_pid", "buffers", "prehistory", "environ"]
+DIMS = ["entropy", "rand", "set_order", "clock_pid", "buffers", "prehistory", "environ", "list_order"]
 BUILTIN_RESERVED = ["router", "system", "permit", "interface", "domain-search", "esp-seal", "snmp", "trunk", "neighbor"]
 
 
@@ -174,6 +174,12 @@ def _exec(plan, dims, salt=None, child=None):
     o = dict(plan["opts"])
     if salt is not None:
         o["salt"] = salt
+    if "list_order" in dims:
+        # the same option SET, spelled in another order
+        for key in ("words", "as", "reserved", "pp", "pa"):
+            if o.get(key) and len(o[key]) > 1:
+                rot = plan["k2"]["pid"] % (len(o[key]) - 1) + 1
+                o[key] = list(reversed(o[key][rot:] + o[key][:rot]))
     pre = []
     disk = _disk(plan)
     if "prehistory" in dims:
@@ -295,6 +301,8 @@ def check(plan):
         exercised = exercised or bool(words)
     if "prehistory" in dims:
         exercised = exercised or bool(plan["pre"])
+    if "list_order" in dims:
+        exercised = exercised or any(plan["opts"].get(k) and len(plan["opts"][k]) > 1 for k in ("words", "as", "reserved", "pp", "pa"))
     if any(d in dims for d in ("rand", "clock_pid", "buffers", "environ")) or child is not None:
         exercised = True
     return _res(plan, V, probes, steps, [W.public_hist(h1), {k: v for k, v in h2.items() if k in (
